@@ -30,6 +30,8 @@ def check(ctx):
     rep.floor("grid header layout obligations", n5, 5)
     from rules import tz as _tz
     _tz.check_utc_guard(ctx, rep)
+    ntzr = _tz.check(ctx, rep)
+    rep.floor("zone-mapping call sites (R-TZ)", ntzr, 10)
     _tz.check_offset_fields(ctx, rep)
     escapes.check_column_layout(ctx, rep)
     nw = escapes.check_write_methods(ctx, rep)
